@@ -187,7 +187,9 @@ func (x *Exec) builtin(st *State, c *ssa.Call, b *ssa.Builtin, argv []ssa.Value,
 		case VString:
 			k(st, VScalar{v.Len})
 		case VRef:
-			k(st, VScalar{SelectD(st.heapGet("MapLen", e.fldSort(e.ar.I())), v.T)})
+			ml := SelectD(st.heapGet("MapLen", e.fldSort(e.ar.I())), v.T)
+			st.assume(And(e.ar.Cmp(token.LEQ, tInt, e.ar.IConst(0), ml), e.ar.Cmp(token.LEQ, tInt, ml, e.ar.Const(tInt, bigPow2(47)))))
+			k(st, VScalar{ml})
 		default:
 			x.fail("len of %T", v)
 		}
